@@ -22,7 +22,7 @@ RULE = ("EXHAUSTIVELY all matrices with entries in {-1,0,1} of every shape up to
 EXHAUSTIVE_NOTE = {"quick": "all 21 297 {-1,0,1} matrices up to 3x3 for UPGrad, DualProj; MGDA / CAGrad: all up to 2x3 + a sample of 3x3",
                    "thorough": "all 21 297 {-1,0,1} matrices up to 3x3 for UPGrad, DualProj, MGDA and CAGrad"}
 ASSUMPTIONS = ["allowances as stated: reg_eps s^2 w_i (w = exact projection weights, reference), s sqrt(|A|^2 - rho^2) for MGDA (rho by support "
-               "enumeration), tau_c s^2 (1+c) for CAGrad with tau_c = 3e-4 (float64) / 5e-3 (float32)",
+               "enumeration), tau_c |J_i| s (1+c) for row i for CAGrad with tau_c = 3e-4 (float64) / 5e-3 (float32)",
                "slop = rounding of the product and of the output: 64 eps s^2 |w|_1 + C03's output tolerance times s"]
 SHAPES = [(m, n) for m in (1, 2, 3) for n in (1, 2, 3)]
 HOSTILE = {"quick": 2400, "thorough": 160000}
@@ -45,6 +45,9 @@ def shards(tier, seed):
     n = 12 if tier == "quick" else 24
     out = [{"kind": "ints", "part": i, "parts": n, "cagrad": "all" if tier == "thorough" else "small+sample"} for i in range(n)]
     out += split_shards("hostile", HOSTILE[tier], 4 if tier == "quick" else 8)
+    # CAGrad on "small-gradient objectives": row norms spread over up to three decades (a nearly converged auxiliary loss next to a
+    # large one): the small rows must not be opposed either
+    out += split_shards("cagrad_small_rows", 480 if tier == "quick" else 24000, 4 if tier == "quick" else 8)
     return out
 
 
@@ -115,14 +118,18 @@ def judge(J64, dname, a, ctx, case, klass):
         ctx.count(f"w_max_iters={a.get('max_iters', 100)}")
     else:  # CAGrad, c >= 1
         allowance = np.zeros(m)
-        slop = TAU_C[dname] * s ** 2 * (1 + a["c"])
+        # the solver's error is an error dA on the output with |dA| <= tau_c s (1 + c): entry i of J.A moves by at most |J_i| |dA|.
+        # Per-row slop (it was tau_c s^2 (1 + c) for every row, which let a clearly negative entry on a SMALL row pass)
+        slop = TAU_C[dname] * s * (1 + a["c"]) * np.linalg.norm(J, axis=1)
+        rowunit = np.maximum(np.linalg.norm(J, axis=1) * s, 1e-300)
+        ctx.maximum(f"cagrad_worst_negative_entry_over_rownorm_s_{dname}", float(max((-prod / rowunit).max(), 0.0)))
     slack = prod + allowance + slop
     ctx.count(f"entries_checked:{name}", m)
     unit = s ** 2 if s > 0 else 1.0
     ctx.maximum(f"worst_negative_entry_over_s2_{name}_{dname}", float(max(-(prod + allowance).min(), 0.0)) / unit)
     if (slack < 0).any():
         i = int(np.argmin(slack))
-        ctx.violation("opposes_an_objective", case, {"row": i, "J_dot_A": prod.tolist(), "allowance": allowance.tolist(), "slop": float(slop), "output": o.tolist(), "s": s})
+        ctx.violation("opposes_an_objective", case, {"row": i, "J_dot_A": prod.tolist(), "allowance": allowance.tolist(), "slop": np.asarray(slop).tolist(), "output": o.tolist(), "s": s})
         return
     if conflict:
         ctx.count("w_conflict_present")
@@ -174,6 +181,15 @@ def gen_hostile(rng, i):
     return {"J": J.tolist(), "dtype": dname, "agg": a, "class": klass}
 
 
+def gen_small_rows(rng, i):
+    m, n = int(rng.integers(2, 6)), int(rng.integers(2, 7))
+    J = rng.standard_normal((m, n)) * (10.0 ** -rng.uniform(0, 3, size=(m, 1)))
+    if rng.random() < 0.3:
+        J = J * 10.0 ** rng.uniform(-2, 4)
+    return {"J": J.tolist(), "dtype": "float32" if rng.random() < 0.25 else "float64", "agg": {"name": "CAGrad", "c": float(np.round(rng.uniform(1.0, 2.5), 2))},
+            "class": "small_gradient_objectives"}
+
+
 def check_hostile(case, ctx):
     J = np.array(case["J"], dtype=np.float64).reshape(len(case["J"]), -1)
     conflict = judge(J, case["dtype"], case["agg"], ctx, case, case["class"])
@@ -187,6 +203,8 @@ def check_hostile(case, ctx):
 def run_shard(shard, ctx):
     if shard["kind"] == "ints":
         run_ints(shard, ctx)
+    elif shard["kind"] == "cagrad_small_rows":
+        run_cases(ctx, shard_rng(ctx.seed, ID, ctx.shard_index), shard["n"], gen_small_rows, check_hostile)
     else:
         run_cases(ctx, shard_rng(ctx.seed, ID, ctx.shard_index), shard["n"], gen_hostile, check_hostile)
 
